@@ -18,7 +18,8 @@ PROPERTY = 'C06'
 RULE = ('case = one complete schedule (placement of every peer action relative to every intercepted call of the reader) '
         'for one configuration (transport, read size, write sizes, peer ending, driver); non-trivial = at least one peer '
         'action was placed between two system calls of a single library call (not merely between calls of the driver)')
-ASSUMPTIONS = ['peer scripts of <= 4 actions; full enumeration of placements (no preemption bound) for those; large outputs '
+ASSUMPTIONS = ['peer scripts of <= 4 actions; full enumeration of placements (no preemption bound) when the two writes total <= 3*size+1 bytes, '
+               'deviation bound 2 for longer ones (thorough tier only; counted in bounded_pairs); large outputs '
                '(thorough tier) are explored with deviation bound 1 because the kernel chooses the chunking there',
                'pty slave in raw mode (byte exact); fake pid + simulated process table (validated against the real kernel by mc.conform_procsim)',
                'scheduling granularity = intercepted calls; PopenSpawn reader thread steps = one os.read + Queue.put']
@@ -270,7 +271,14 @@ def run_task(task):
         def run(ch):
             return run_config(ch, task, x, y)
         n = 0
-        for ch, (obs, viol) in dfs(run):
+        # full enumeration of placements when the run is short; deviation bound 2 when the reader needs many
+        # reads (the number of scheduling points, and with it the number of placements, grows with (a+b)/size)
+        bound = None if (a + b) <= 3 * size + 1 else 2
+        if bound is not None and not acc.extra.get('bounded_pairs'):
+            acc.extra['bounded_pairs'] = 0
+        if bound is not None:
+            acc.extra['bounded_pairs'] += 1
+        for ch, (obs, viol) in dfs(run, bound=bound):
             n += 1
             acc.execs += 1
             acc.transitions += len(obs.get('calls', ()))
